@@ -148,6 +148,10 @@ def gen_real(rng, i):
           c['late'] = ks[0]
       if c.get('late') == -1 and T['leaf'].get('cbounds'):
         c.pop('late')
+    if i % 4 == 2:
+      # a PREDECESSOR of the device - same ids, same shape, but without its cumulative and aggregate bounds (last window's model) - has
+      # been stepped in the same process: nothing step() keeps between calls may reach this device
+      c['decoy'] = True
     return c
   return None
 
@@ -276,7 +280,28 @@ def build_dev(c):
   return dev
 
 
+def step_decoy(c):
+  import copy
+  T0 = copy.deepcopy(c['t'])
+  for x in tg.nodes(T0):
+    if x.get('sbounds'):
+      x['sbounds'], x['sb_kind'] = None, 'none'
+    L = x.get('leaf')
+    if L and L.get('cbounds') and L['cls'] != 'CDevice2':
+      L['cbounds'], L['cb_kind'] = None, 'none'
+      for k in ('recb',):
+        L.pop(k, None)
+  try:
+    d0 = tg.build_tree(T0)
+    s = np.array(fl(c['s']))
+    S().step(d0, tg.py_price(c['p']), s.reshape(d0.shape), float(c['step']))
+  except Exception:
+    pass
+
+
 def observe(c):
+  if c.get('decoy'):
+    step_decoy(c)
   dev = build_dev(c)
   price = tg.py_price(c['p'])
   t = float(c['step'])
@@ -364,6 +389,7 @@ def case_to_json(c):
   if c['kind'] == 'real':
     d['k'] = c['k']
     d['late'] = c.get('late')
+    d['decoy'] = bool(c.get('decoy'))
   else:
     d.update({'proj': list(c['proj']), 'z': core.jsonable(c['z']), 'ls': list(c['ls']), 'x': core.jsonable(c['x'])})
   return d
@@ -376,6 +402,8 @@ def case_from_json(j):
     c['k'] = int(j['k'])
     if j.get('late') is not None:
       c['late'] = int(j['late'])
+    if j.get('decoy'):
+      c['decoy'] = True
   else:
     c.update({'proj': (bool(j['proj'][0]), int(j['proj'][1])), 'z': [F(v) for v in j['z']], 'ls': (bool(j['ls'][0]), int(j['ls'][1])),
               'x': [F(v) for v in j['x']]})
@@ -387,6 +415,8 @@ def case_from_json(j):
 # ---------------------------------------------------------------------------------------------------
 def oracle_real(c):
   M = S()
+  if c.get('decoy'):
+    step_decoy(c)
   dev = build_dev(c)
   price = tg.py_price(c['p'])
   desc = cc.linear_description(dev)
